@@ -3,7 +3,7 @@ domain and folds the branch conditions (comparisons with constants, &&, ||, !). 
 list over those parameters (no loops, no other data): anything else is 'analysis broken'. This is constant folding over
 the tree, i.e. the table the code denotes; the code itself is not run."""
 from .facts import AnalysisBroken, REF_KINDS
-from .match import strip_casts
+from .match import strip_casts, resolve_local
 
 
 def fold(n, env):
@@ -14,6 +14,10 @@ def fold(n, env):
         return env[n.n]
     if n.k == 'ArraySubscriptExpr' and n.text() in env:
         return env[n.text()]
+    if n.k in REF_KINDS and n.v is None:
+        init = resolve_local(n)
+        if init is not None:
+            return fold(init, env)
     if n.v is not None and n.k not in ('BinaryOperator', 'UnaryOperator', 'ConditionalOperator'):
         return n.v
     if n.k == 'UnaryOperator' and n.o == '!':
@@ -98,3 +102,20 @@ def evaluate(fn, env, max_steps=200):
                 raise AnalysisBroken('%s: unexpected CFG shape' % fn.q)
             b = nx[0]
     raise AnalysisBroken('%s: decision list does not terminate' % fn.q)
+
+
+def value_leaf(n, env, depth=0):
+    """the expression a (possibly conditional) value denotes under env: folds ?: and looks through named locals; None if undecided"""
+    n = strip_casts(n)
+    if n is None or depth > 8:
+        return None
+    if n.k == 'ConditionalOperator':
+        c = fold(n.c[0], env)
+        if c is None:
+            return None
+        return value_leaf(n.c[1] if c else n.c[2], env, depth + 1)
+    if n.k in REF_KINDS and n.d.get('local'):
+        init = resolve_local(n)
+        if init is not None:
+            return value_leaf(init, env, depth + 1)
+    return n
